@@ -10,24 +10,33 @@ COUNT = {"quick": 500, "thorough": 12000, "search": 1500}
 PARALLEL = True
 EXHAUSTIVE = {"quick": False, "thorough": True}
 TOL = 1e-9          # exact paths (spline prefilter / float matrix round-off only)
-TOL_BLOB = 0.02     # interpolated paths, relative to the map's peak (the property's "smooth map" clauses)
-RULE = ("six case kinds from one PRNG: rot24 = one of the 64 quarter-turn zxz triples (all 24 cube rotations) on an integer-valued box "
-        "5..9 per axis (odd, even, non-cubic), every voxel >=1 away from the faces compared; rotblob = random zxz angles on 1-3 "
-        "isotropic Gaussians (sigma 1.75-2.75, 3.3 sigma inside the box) in a 18-24 box, compared with the analytic Gaussians at c+R*v (R*v from the Lean zxz at Float) "
-        "and rotate-back; extract = extract_subvolume/crop windows (even sizes mostly, some odd) fully inside / partly / fully outside "
-        "integer-valued volumes, centre coordinates on the 1/4 grid; place = place_object with 1..20 poses (quarter-turn orientations -> "
-        "fully modelled; 25 % arbitrary orientations -> mask taken from the real rotate), positions x+shift on the 1/4 grid in and "
-        "around the container, colouring field object_id/score/geom1/class, default / offset / shuffled DataFrame index, volume or "
-        "volume_shape; symexact = symmetrize_volume n in {1,2,4} on integer boxes (exact); symblob = n in 2..12 on Gaussian blobs. "
-        "non-trivial = rotation != identity / window not trivially the whole volume / >=1 stamped voxel / n>=2; distinct = distinct case content")
+TOL_BLOB = 0.01     # interpolated paths, relative to the map's peak (the property's "smooth map" clauses); observed <= 0.006
+BLOB_SHELL = 0.015  # placeblob: voxels whose analytic value is within this of the 0.1 threshold may fall either way (spline error)
+RULE = ("seven case kinds from one PRNG: rot24 = one of the 64 quarter-turn zxz triples (all 24 cube rotations) on an integer-valued box "
+        "5..9 per axis (odd, even, non-cubic) and non-cubic boxes up to 16 whose first/last floor-halves differ, every voxel >=1 away from the "
+        "faces compared; the rotation-object path with transpose_rotation=True (70 %) or omitted (30 %, library default); rotblob = random zxz "
+        "angles on 1-3 isotropic Gaussians (sigma 1.75-2.75, 3.3 sigma inside the box) in a 18-24 box, compared with the analytic Gaussians at "
+        "c+R*v (numpy Rz Rx Rz, independent of implementation and model) and rotate-back; extract = extract_subvolume windows of any parity "
+        "(1..13 per axis, up to and beyond the volume size, incl. all-odd >= 9) fully inside / partly / fully outside integer-valued volumes of "
+        "dtype float64/int16/int32/uint8, centre coordinates on the 1/4 grid; the same volume / coordinate array / shape list then serves a second "
+        "extract, enforce_shape=True (25 %), crop with and without crop_coord (30 % default centre), pad with and without fill_value (default mean); "
+        "place = place_object with 1..20 poses, templates 3..9 per axis (odd, even, mixed parity, non-cubic), one template or a list of different "
+        "templates with repeated bit-identical angles, quarter-turn orientations (fully modelled) or 20 % arbitrary orientations (mask taken from "
+        "the real rotate: consistency only), positions x+shift on the 1/4 grid in and around the container, colouring field object_id (keyword "
+        "omitted in 2/3 of these: default)/score/geom1/class, default / offset / shuffled / filtered DataFrame index, volume or volume_shape, 30 % "
+        "with a second call on the same template array(s) and Motl after an in-place flip / colour change; placeblob = a Gaussian-blob template at "
+        "offset v, one particle with arbitrary orientation: stamped voxels vs the analytic ball at start+floor(s/2)+R*v (exact outside a thin "
+        "threshold shell) and centre of mass within 0.1 voxel; symexact = symmetrize_volume n in {1,2,4} on integer boxes (exact); symblob = n in "
+        "2..12 on Gaussian blobs vs the analytic mean of the rotated Gaussians. Every call: caller-owned inputs compared before/after, dtype / "
+        "type / shape of the result recorded. non-trivial = rotation != identity / >=1 stamped voxel / n>=2 / blob asymmetric; distinct = distinct case content")
 ASSUMPTIONS = [
     "scipy.ndimage.affine_transform(order=3, mode='constant') reproduces samples at integer source coordinates (to 1e-9) and returns 0 for "
     "sources outside [0,N-1]; probed each run (identity and quarter-turn rotations); sources exactly on a face are excluded (rounding)",
     "scipy Rotation.from_euler('zxz',[phi,theta,psi],degrees=True).as_matrix() = Rz(psi)Rx(theta)Rz(phi) = Lean zxz; probed each run on the 64 quarter-turn triples and on random angles",
     "numpy float arithmetic on integer-valued / dyadic voxels is exact (sums, mean = correctly rounded quotient)",
-    "spline interpolation accuracy on band-limited blobs is scipy's: the 2 % clauses are validated, not proved",
+    "spline interpolation accuracy on band-limited blobs is scipy's: the 1 % clauses (observed <= 0.6 %) are validated, not proved",
 ]
-TRUSTED = ["props/c14.py independent evaluators of the statement (painter's algorithm, window formula, analytic Gaussians)"]
+TRUSTED = ["props/c14.py independent evaluators of the statement (painter's algorithm, window formula, analytic Gaussians, numpy Rz Rx Rz)"]
 
 MAP = "cryocat/cryomap.py"
 MOTL = "cryocat/cryomotl.py"
@@ -35,6 +44,119 @@ COLUMNS = ["score", "geom1", "geom2", "subtomo_id", "tomo_id", "object_id", "sub
            "shift_x", "shift_y", "shift_z", "geom3", "geom4", "geom5", "phi", "psi", "theta", "class"]
 
 # ------------------------------------------------------------------ translator (pure ast)
+# Local variable names as the source has them today, in order of first binding.  The translator renames the k-th local of
+# each function to the k-th documented name before extracting anything, so a pure renaming of locals leaves every anchor
+# unchanged, while an added / removed / re-ordered local shifts the names and breaks the `*_documented` theorems.
+DOC_LOCALS = {
+    "rotate": ["T", "structure_center", "rot_matrix", "rot", "final_matrix", "rot_struct"],
+    "get_start_end_indices": ["subvolume_half", "volume_start", "volume_end", "volume_start_clip", "volume_end_clip", "subvolume_start", "subvolume_end"],
+    "extract_subvolume": ["vs", "ve", "ss", "se", "subvolume"],
+    "crop": ["vs", "ve", "_", "cropped_volume"],
+    "pad": ["volume", "padded_volume", "vol_size", "x_start", "y_start", "z_start", "x_end", "y_end", "z_end"],
+    "place_object": ["object_container", "rotations", "coordinates", "colors", "i", "coord", "object_map", "ls", "le", "os", "oe", "object_shape"],
+    "symmetrize_volume": ["nfold", "inplane_step", "rotated_sum", "inplane", "rotated_volume", "sym_vol"],
+    "Motl.get_rotations": ["angles", "rotations"],
+    "Motl.get_angles": ["angles"],
+    "Motl.get_coordinates": ["coord"],
+    "Motl.shift_positions.shift_coords": ["v", "euler_angles", "orientations", "rshifts"],
+}
+
+
+def _params(fn):
+    a = fn.args
+    return [x.arg for x in a.posonlyargs + a.args + a.kwonlyargs] + ([a.vararg.arg] if a.vararg else []) + ([a.kwarg.arg] if a.kwarg else [])
+
+
+def _locals_in_order(fn):
+    params = set(_params(fn))
+    stores = []
+    for n in ast.walk(fn):
+        if isinstance(n, ast.Name) and isinstance(n.ctx, ast.Store) and n.id not in params:
+            stores.append((n.lineno, n.col_offset, n.id))
+        elif isinstance(n, (ast.FunctionDef, ast.AsyncFunctionDef)) and n is not fn:
+            stores.append((n.lineno, n.col_offset, n.name))
+    out = []
+    for _, _, name in sorted(stores):
+        if name not in out:
+            out.append(name)
+    return out
+
+
+def _canon(fn, doc):
+    """copy of fn with its k-th local renamed to doc[k] (L<k> beyond the documented ones)"""
+    import copy
+    fn = copy.deepcopy(fn)
+    loc = _locals_in_order(fn)
+    ren = {name: (doc[k] if k < len(doc) else f"L{k}") for k, name in enumerate(loc)}
+    # a rename must not capture another identifier of the function (a global that happens to carry a documented name)
+    free = {n.id for n in ast.walk(fn) if isinstance(n, ast.Name)} - set(loc)
+    for old, new_ in ren.items():
+        if new_ != old and new_ in free:
+            raise core.AnchorMissing(f"{fn.name}: local {old} would be renamed onto the free name {new_}")
+    for n in ast.walk(fn):
+        if isinstance(n, ast.Name) and n.id in ren:
+            n.id = ren[n.id]
+        elif isinstance(n, (ast.FunctionDef, ast.AsyncFunctionDef)) and n.name in ren:
+            n.name = ren[n.name]
+    return fn
+
+
+def _is_doc(st):
+    return isinstance(st, ast.Expr) and isinstance(st.value, ast.Constant) and isinstance(st.value.value, str)
+
+
+def _dump(stmts, depth=0, strict=None):
+    """normalised dump of a statement list: one string per statement, nesting shown by leading '>'; `strict` = the only
+    statement classes accepted (anything else is a missing anchor, not silently skipped)"""
+    out = []
+    pre = ">" * depth
+    for k, st in enumerate(stmts):
+        if depth == 0 and k == 0 and _is_doc(st):
+            continue
+        if strict is not None and not isinstance(st, strict):
+            raise core.AnchorMissing(f"statement kind {type(st).__name__} at line {st.lineno} is not one the model mirrors")
+        if isinstance(st, ast.Assign):
+            out.append(pre + "=".join(core.norm_expr(t) for t in st.targets) + "=" + core.norm_expr(st.value))
+        elif isinstance(st, ast.Return):
+            out.append(pre + "return " + (core.norm_expr(st.value) if st.value is not None else ""))
+        elif isinstance(st, ast.If):
+            out.append(pre + "if " + core.norm_expr(st.test) + ":")
+            out += _dump(st.body, depth + 1, strict)
+            if st.orelse:
+                out.append(pre + "else:")
+                out += _dump(st.orelse, depth + 1, strict)
+        elif isinstance(st, (ast.For, ast.While)):
+            head = ("for " + core.norm_expr(st.target) + " in " + core.norm_expr(st.iter)) if isinstance(st, ast.For) else ("while " + core.norm_expr(st.test))
+            out.append(pre + head + ":")
+            out += _dump(st.body, depth + 1, strict)
+            if st.orelse:
+                out.append(pre + "else:")
+                out += _dump(st.orelse, depth + 1, strict)
+        elif isinstance(st, (ast.FunctionDef, ast.AsyncFunctionDef)):
+            out.append(pre + "def " + st.name + "(" + ",".join(_sig(st)) + "):")
+            out += _dump(st.body, depth + 1, strict)
+        elif isinstance(st, ast.Raise):   # the exception class, not the wording of its message
+            e = st.exc.func if isinstance(st.exc, ast.Call) else st.exc
+            out.append(pre + "Raise:" + (core.norm_expr(e) if e is not None else ""))
+        else:   # AugAssign, Expr, With, Try, Assert, Delete, ...: the whole statement, kind first
+            out.append(pre + type(st).__name__ + ":" + ast.unparse(st).replace(" ", "").replace("\n", ";"))
+    return out
+
+
+def _sig(fn):
+    """parameters in order, `name` or `name=default`"""
+    a = fn.args
+    pos = a.posonlyargs + a.args
+    dfl = [None] * (len(pos) - len(a.defaults)) + list(a.defaults)
+    out = [x.arg if d is None else f"{x.arg}={core.norm_expr(d)}" for x, d in zip(pos, dfl)]
+    if a.vararg:
+        out.append("*" + a.vararg.arg)
+    out += [x.arg if d is None else f"{x.arg}={core.norm_expr(d)}" for x, d in zip(a.kwonlyargs, a.kw_defaults)]
+    if a.kwarg:
+        out.append("**" + a.kwarg.arg)
+    return out
+
+
 def _assign_value(fn, target):
     """normalised right-hand sides of every `target = ...` statement in fn, in source order"""
     out = []
@@ -67,7 +189,14 @@ def translate(src):
     A = src.anchor
     S = core.lean_str
     SL = core.lean_str_list
-    rot = lambda: src.find(MAP, "rotate")
+    cache = {}
+
+    def cf(rel, qual):
+        """the function with its locals renamed to the documented names (rename-insensitive view)"""
+        if (rel, qual) not in cache:
+            cache[(rel, qual)] = _canon(src.find(rel, qual), DOC_LOCALS[qual])
+        return cache[(rel, qual)]
+    rot = lambda: cf(MAP, "rotate")
     # ---- rotate ------------------------------------------------------------------------------
     centre = A("rotate:structure_center", lambda: _assign_value(rot(), "structure_center"))
     tcol = A("rotate:T[:3,-1]", lambda: _assign_value(rot(), "T[:3,-1]"))
@@ -93,20 +222,12 @@ def translate(src):
         return [t for _, t in sorted(tests)]
     tests = A("rotate:if-tests", branch_tests)
     # ---- get_start_end_indices ------------------------------------------------------------------
-    gse = lambda: src.find(MAP, "get_start_end_indices")
-
-    def gse_body():
-        fn = gse()
-        out = []
-        for st in fn.body:
-            if isinstance(st, ast.Assign):
-                out.append(core.norm_expr(st.targets[0]) + "=" + core.norm_expr(st.value))
-            elif isinstance(st, ast.Return):
-                out.append("return " + core.norm_expr(st.value))
-        return out
-    body = A("get_start_end_indices:statements", gse_body)
+    gse = lambda: cf(MAP, "get_start_end_indices")
+    # the model mirrors straight-line code: assignments and one return; any other statement kind (If, AugAssign, Expr, For, ...)
+    # is a missing anchor
+    body = A("get_start_end_indices:statements (straight-line only)", lambda: _dump(gse().body, strict=(ast.Assign, ast.Return)))
     # ---- extract_subvolume / crop ---------------------------------------------------------------
-    ext = lambda: src.find(MAP, "extract_subvolume")
+    ext = lambda: cf(MAP, "extract_subvolume")
 
     def ext_items():
         fn = ext()
@@ -120,11 +241,11 @@ def translate(src):
     exti = A("extract_subvolume:fill and slice assignment", ext_items)
 
     def crop_items():
-        fn = src.find(MAP, "crop")
+        fn = cf(MAP, "crop")
         return [core.norm_expr(_calls(fn, "get_start_end_indices")[0])] + _assign_value(fn, "cropped_volume") + _assign_value(fn, "crop_coord")
     cropi = A("crop:window", crop_items)
     # ---- place_object --------------------------------------------------------------------------
-    po = lambda: src.find(MAP, "place_object")
+    po = lambda: cf(MAP, "place_object")
     p_rot = A("place_object:rotations", lambda: _assign_value(po(), "rotations"))
     p_coord = A("place_object:coordinates", lambda: _assign_value(po(), "coordinates"))
     p_col = A("place_object:colors", lambda: _assign_value(po(), "colors"))
@@ -164,17 +285,17 @@ def translate(src):
         raise core.AnchorMissing("place_object: np.where(object_map <cmp> <const>, on, off)")
     thr = A("place_object:threshold", p_thr)
     # ---- symmetrize_volume ---------------------------------------------------------------------
-    sy = lambda: src.find(MAP, "symmetrize_volume")
+    sy = lambda: cf(MAP, "symmetrize_volume")
     s_step = A("symmetrize_volume:inplane_step", lambda: _assign_value(sy(), "inplane_step"))
     s_sum = A("symmetrize_volume:rotated_sum (init, accumulate)", lambda: _assign_value(sy(), "rotated_sum"))
     s_rot = A("symmetrize_volume:rotated_volume", lambda: _assign_value(sy(), "rotated_volume"))
     s_loop = A("symmetrize_volume:loop", lambda: [core.norm_expr(n.target) + " in " + core.norm_expr(n.iter) for n in ast.walk(sy()) if isinstance(n, ast.For)])
     s_out = A("symmetrize_volume:sym_vol", lambda: _assign_value(sy(), "sym_vol"))
     # ---- cryomotl: the particle convention -----------------------------------------------------
-    m_rot = A("Motl.get_rotations:from_euler", lambda: _assign_value(src.find(MOTL, "Motl.get_rotations"), "rotations"))
+    m_rot = A("Motl.get_rotations:from_euler", lambda: _assign_value(cf(MOTL, "Motl.get_rotations"), "rotations"))
 
     def m_angles():
-        fn = src.find(MOTL, "Motl.get_angles")
+        fn = cf(MOTL, "Motl.get_angles")
         out = []
         for n in ast.walk(fn):
             if isinstance(n, ast.List) and n.elts and all(isinstance(e, ast.Constant) and isinstance(e.value, str) for e in n.elts):
@@ -188,18 +309,25 @@ def translate(src):
     m_ang = A("Motl.get_angles:columns", m_angles)
 
     def m_coords():
-        fn = src.find(MOTL, "Motl.get_coordinates")
+        fn = cf(MOTL, "Motl.get_coordinates")
         return _assign_value(fn, "coord")[0]
     m_crd = A("Motl.get_coordinates:x+shift_x", m_coords)
 
     def m_shift():
-        fn = src.find(MOTL, "Motl.shift_positions.shift_coords")
+        fn = cf(MOTL, "Motl.shift_positions.shift_coords")
         return _assign_value(fn, "euler_angles") + _assign_value(fn, "orientations") + _assign_value(fn, "rshifts")
     m_sh = A("Motl.shift_positions:orientation applied to the shift", m_shift)
+    # ---- whole bodies (every statement, nested blocks included) and signatures (every default) ----
+    FNS = [("rotate", "rotate"), ("window", "get_start_end_indices"), ("extract", "extract_subvolume"), ("crop", "crop"), ("pad", "pad"),
+           ("place", "place_object"), ("sym", "symmetrize_volume")]
+    bodies = {k: A(f"{q}:whole body", (lambda q=q: _dump(cf(MAP, q).body))) for k, q in FNS}
+    sigs = {k: A(f"{q}:signature and defaults", (lambda q=q: _sig(cf(MAP, q)))) for k, q in FNS}
 
     ls = lambda v: SL(v if isinstance(v, list) else [])
     thr_ok = isinstance(thr, list)
-    thr_fr = Fraction(thr[1]) if thr_ok else Fraction(0)
+    # a missing anchor never silently changes the model: the documented value is used (anchorsOk is false anyway)
+    thr_fr = Fraction(thr[1]) if thr_ok else Fraction(1, 10)
+    extra = "".join(f"def {k}Body : List String := {ls(bodies[k])}\ndef {k}Sig : List String := {ls(sigs[k])}\n" for k, _ in FNS)
     return f"""-- GENERATED by harness/props/c14.py from {MAP} and {MOTL}; do not edit
 namespace CryoCat.Gen.C14
 def anchorsOk : Bool := {"true" if src.ok else "false"}
@@ -211,10 +339,10 @@ def rotFromEuler : List String := {ls(fe)}
 def rotFinalMatrix : List String := {ls(fm)}
 def rotAffineCall : List String := {ls(aff)}
 def rotIfTests : List String := {ls(tests)}
-def rotSeqDefault : String := {S(seq if isinstance(seq, str) else "")}
-def rotDegreesDefault : Bool := {"true" if deg is True else "false"}
+def rotSeqDefault : String := {S(seq if isinstance(seq, str) else "zxz")}
+def rotDegreesDefault : Bool := {"false" if deg is False else "true"}
 def rotTransposeDefault : Bool := {"true" if tdef is True else "false"}
-def rotSplineOrder : Nat := {order if isinstance(order, int) and order >= 0 else 0}
+def rotSplineOrder : Nat := {order if isinstance(order, int) and not isinstance(order, bool) and order >= 0 else 3}
 -- get_start_end_indices / extract_subvolume / crop
 def windowStatements : List String := {ls(body)}
 def extractItems : List String := {ls(exti)}
@@ -228,7 +356,7 @@ def placeIndexCall : List String := {ls(p_idx)}
 def placeObjectShape : List String := {ls(p_shape)}
 def placeLoop : List String := {ls(p_loop)}
 def placeAssignment : List String := {ls(p_asg)}
-def placeOffset : Int := {off if isinstance(off, int) else 0}
+def placeOffset : Int := {off if isinstance(off, int) else 1}
 def placeThreshold : Rat := mkRat ({thr_fr.numerator}) {thr_fr.denominator}
 def placeThresholdCmp : String := {S(thr[0] if thr_ok else "")}
 def placeOnOff : List String := {ls(thr[2:] if thr_ok else [])}
@@ -243,7 +371,8 @@ def motlRotations : List String := {ls(m_rot)}
 def motlAngleColumns : List String := {ls(m_ang)}
 def motlCoordinates : String := {S(m_crd if isinstance(m_crd, str) else "")}
 def motlShiftPositions : List String := {ls(m_sh)}
-end CryoCat.Gen.C14
+-- whole bodies and signatures
+{extra}end CryoCat.Gen.C14
 """
 
 
@@ -307,14 +436,17 @@ def _blob(N, blobs, centres=None):
 
 
 # ------------------------------------------------------------------ generators
-def _intvol(rng, shape, zero_faces=False, sparse=False):
+_DTYPES = ["float64", "float64", "float64", "int16", "int32", "uint8", "int16"]
+
+
+def _intvol(rng, shape, zero_faces=False, sparse=False, lo=-9):
     a = np.zeros(shape, dtype=int)
     for idx in itertools.product(*[range(n) for n in shape]):
         if zero_faces and any(i == 0 or i == n - 1 for i, n in zip(idx, shape)):
             continue
         if sparse and rng.random() < 0.6:
             continue
-        a[idx] = rng.randint(-9, 9)
+        a[idx] = rng.randint(lo, 9)
     return a.tolist()
 
 
@@ -327,9 +459,13 @@ def _shape(rng, lo, hi):
 
 
 def gen_rot24(rng, q=None, shape=None):
-    shape = shape or _shape(rng, 5, 9)
+    if shape is None:
+        shape = _shape(rng, 5, 9)
+        if rng.random() < 0.15:      # non-cubic boxes whose first and last floor-halves differ, beyond 9
+            shape = rng.choice([[8, 12, 10], [12, 12, 16], [10, 7, 13], [6, 11, 9]])
     q = q or [rng.randrange(4) for _ in range(3)]
-    return dict(kind="rot24", shape=shape, data=_intvol(rng, shape, sparse=rng.random() < 0.3), q=list(q))
+    # G1: `transpose_rotation` is passed explicitly (True) in ~70 %, omitted (library default False) in ~30 %
+    return dict(kind="rot24", shape=shape, data=_intvol(rng, shape, sparse=rng.random() < 0.3), q=list(q), plain=rng.random() < 0.3)
 
 
 def _blobs(rng, N, nmax=3):
@@ -354,14 +490,21 @@ def gen_rotblob(rng):
 
 
 def gen_extract(rng):
-    V = _shape(rng, 4, 10)
-    sub = [rng.choice([2, 4, 6, 8]) for _ in range(3)]
-    if rng.random() < 0.15:
-        sub = [rng.randint(1, 7) for _ in range(3)]
+    mode = rng.choice(["inside", "inside", "partly", "partly", "outside", "any", "bigodd", "upto"])
+    if mode == "bigodd":        # odd windows >= 9 on every axis, in volumes that may be smaller or larger
+        V = [rng.randint(8, 13) for _ in range(3)]
+        sub = [rng.choice([9, 9, 11, 13]) for _ in range(3)]
+    elif mode == "upto":        # any size (odd, even, mixed parity) up to the volume size
+        V = _shape(rng, 4, 12)
+        sub = [rng.randint(max(1, v - 3), v) if rng.random() < 0.6 else rng.randint(1, v) for v in V]
+    else:
+        V = _shape(rng, 4, 10)
+        sub = [rng.choice([2, 4, 6, 8]) for _ in range(3)]
+        if rng.random() < 0.3:
+            sub = [rng.randint(1, 9) for _ in range(3)]
     den = rng.choice([1, 1, 2, 4])
-    mode = rng.choice(["inside", "inside", "partly", "partly", "outside", "any"])
     if mode == "inside":
-        sub = [rng.choice([k for k in (2, 4, 6, 8) if k <= v]) for v in V]
+        sub = [rng.choice([k for k in range(1, 10) if k <= v and (k % 2 == 0 or rng.random() < 0.3)] or [v]) for v in V]
     num = []
     for v, s in zip(V, sub):
         if mode == "inside" and s <= v:
@@ -372,24 +515,41 @@ def gen_extract(rng):
                 lo, hi = -s, v + s  # only some axes outside
         else:
             lo, hi = -s / 2 - 1, v + s / 2 + 1
-        num.append(rng.randint(math.ceil(lo * den), math.floor(hi * den)))
-    return dict(kind="extract", data=_intvol(rng, V), num=num, den=den, sub=sub)
+        a, b = math.ceil(lo * den), math.floor(hi * den)
+        num.append(rng.randint(a, max(a, b)))
+    dtype = rng.choice(_DTYPES)
+    case = dict(kind="extract", data=_intvol(rng, V, lo=0 if dtype == "uint8" else -9), dtype=dtype, num=num, den=den, sub=sub,
+                enforce=rng.random() < 0.25,            # explicit enforce_shape=True (default False is what `out` exercises)
+                crop_default=rng.random() < 0.3)         # G1: crop_coord omitted -> box centre
+    if rng.random() < 0.3:
+        fill = None if rng.random() < 0.5 else [rng.randint(-40, 40), 8]      # G1: fill_value omitted -> volume mean
+        case["pad"] = dict(nsize=[v + rng.choice([0, 0, 1, 2, 3, 5]) for v in V], fill=fill)
+    return case
+
+
+_TVALS = [0, 0, 1, 2, 3, 8, 16, 16, 48, -16]        # /16: 1/16 and 0.1 > 1.5/16 below the threshold, 2/16 = 0.125 above
+
+
+def _template(rng, tshape):
+    t = np.zeros(tshape, dtype=int)
+    for idx in itertools.product(*[range(1, n - 1) for n in tshape]):
+        t[idx] = rng.choice(_TVALS)
+    if not (t > 1).any():
+        t[tuple(n // 2 for n in tshape)] = 16
+    return t.tolist()
 
 
 def gen_place(rng, tier="quick"):
     C = _shape(rng, 8, 14)
-    ts = rng.choice([4, 6, 8])
-    tshape = [ts, ts, ts] if rng.random() < 0.7 else [rng.choice([4, 6, 8]) for _ in range(3)]
+    ts = rng.randint(3, 9)                                # odd, even: 3..9
+    tshape = [ts, ts, ts] if rng.random() < 0.6 else [rng.randint(3, 9) for _ in range(3)]      # mixed parity, non-cubic
     tden = 16
-    vals = [0, 0, 1, 2, 3, 8, 16, 16, 48, -16]        # /16: 1/16 and 0.1 > 1.5/16 below the threshold, 2/16 = 0.125 above
-    t = np.zeros(tshape, dtype=int)
-    for idx in itertools.product(*[range(1, n - 1) for n in tshape]):
-        t[idx] = rng.choice(vals)
-    if not (t > 1).any():
-        t[tuple(n // 2 for n in tshape)] = 16
     n = rng.randint(1, 20) if rng.random() < 0.8 else rng.randint(1, 3)
-    feature = rng.choice(["object_id", "object_id", "score", "geom1", "class"])
-    general = rng.random() < 0.25
+    if ts >= 8 and n > 8:
+        n = rng.randint(1, 8)
+    feature = rng.choice(["object_id", "object_id", "object_id", "score", "geom1", "class"])
+    general = rng.random() < 0.2
+    tlist = (not general) and rng.random() < 0.3           # the list entry point: one template per particle
     parts = []
     for i in range(n):
         pos = [rng.randint(-2, c + 3) for c in C]
@@ -403,12 +563,39 @@ def gen_place(rng, tier="quick"):
             p["angles"] = [rng.randint(-720, 720) / 4.0, rng.randint(0, 720) / 4.0, rng.randint(-720, 720) / 4.0]
         else:
             p["q"] = [rng.randrange(4) for _ in range(3)]
+            if tlist:
+                p["tdata"] = _template(rng, tshape)
+                if i > 0 and rng.random() < 0.5:       # bit-identical angles for particles with different templates
+                    p["q"] = list(rng.choice(parts)["q"])
         parts.append(p)
     cinit = None
     if rng.random() < 0.4:
         cinit = [[[rng.choice([0, 0, 0, 77, -5]) for _ in range(C[2])] for _ in range(C[1])] for _ in range(C[0])]
-    return dict(kind="place", cshape=C, cinit=cinit, tshape=tshape, tdata=t.tolist(), tden=tden, parts=parts, feature=feature,
-                index=rng.choice(["default", "offset", "shuffled", "filtered"]))
+    case = dict(kind="place", cshape=C, cinit=cinit, tshape=tshape, tdata=_template(rng, tshape), tden=tden, parts=parts, feature=feature,
+                index=rng.choice(["default", "offset", "shuffled", "filtered"]), tlist=tlist,
+                kw_feature=not (feature == "object_id" and rng.random() < 0.65))       # G1: feature_to_color omitted -> 'object_id'
+    if not general and rng.random() < 0.3:
+        # G2: the same template array(s) and the same Motl object serve a second call after a legitimate in-place edit
+        case["second"] = dict(flip=rng.randrange(3), coladd=rng.randint(1, 5))
+    return case
+
+
+def gen_placeblob(rng):
+    """a Gaussian blob template at offset v from the template centre, one particle with arbitrary orientation"""
+    T = [rng.randint(14, 20) for _ in range(3)] if rng.random() < 0.6 else [rng.randint(14, 20)] * 3
+    sig = rng.randint(14, 20) / 8.0
+    rho = sig * math.sqrt(2 * math.log(10.0))
+    rmax = min(T) / 2 - 2.0 - rho
+    while True:
+        v = [rng.randint(-32, 32) / 8.0 for _ in range(3)]
+        if 0.75 <= math.sqrt(sum(x * x for x in v)) <= max(rmax, 0.8):
+            break
+    C = [rng.randint(t + 6, t + 14) for t in T]
+    pos4 = [rng.randint(4 * (t // 2 + 2), 4 * (c - t // 2 - 1)) for t, c in zip(T, C)]
+    ang = [rng.randint(-720, 720) / 4.0, rng.randint(0, 720) / 4.0, rng.randint(-720, 720) / 4.0]
+    if rng.random() < 0.1:
+        ang = [90.0 * rng.randrange(4) for _ in range(3)]
+    return dict(kind="placeblob", tshape=T, sigma=sig, v=v, cshape=C, pos4=pos4, angles=ang, col=rng.randint(1, 30))
 
 
 def gen_symexact(rng, n=None):
@@ -420,9 +607,25 @@ def gen_symexact(rng, n=None):
     return dict(kind="symexact", n=n, shape=shape, data=_intvol(rng, shape, zero_faces=zf), zero_faces=zf, form=rng.choice(["int", "str"]))
 
 
+def _blobs_z(rng, N):
+    """isotropic Gaussians whose 3.3-sigma ball stays >= 1 voxel inside the box under every rotation about the z axis through the
+    centre; the first one sits >= 3 voxels off the axis, where a wrong in-plane angle moves density visibly"""
+    out = []
+    for i in range(rng.randint(1, 3)):
+        sig = rng.randint(14, 20) / 8.0
+        rmax = N / 2 - 1 - 3.3 * sig
+        while True:
+            v = [rng.randint(-72, 72) / 8.0 for _ in range(3)]
+            r = math.hypot(v[0], v[1])
+            if r <= rmax and abs(v[2]) <= rmax and (i > 0 or r >= min(3.0, rmax - 0.5)):
+                break
+        out.append([rng.randint(4, 16) / 4.0, sig, v])
+    return out
+
+
 def gen_symblob(rng, n=None):
-    N = rng.randint(20, 24)
-    return dict(kind="symblob", n=n or rng.randint(2, 12), N=N, blobs=_blobs(rng, N), form=rng.choice(["int", "str"]))
+    N = rng.randint(24, 30)
+    return dict(kind="symblob", n=n or rng.randint(2, 12), N=N, blobs=_blobs_z(rng, N), form=rng.choice(["int", "str"]))
 
 
 def generate(rng, tier, n):
@@ -436,16 +639,17 @@ def generate(rng, tier, n):
             for N in range(5, 10):
                 yield gen_rot24(rng, q=tr, shape=[N, N, N])
             yield gen_rot24(rng, q=tr, shape=[rng.randint(5, 9) for _ in range(3)])
+            yield gen_rot24(rng, q=tr, shape=rng.choice([[8, 12, 10], [12, 12, 16], [10, 7, 13]]))
     elif tier == "quick":      # every one of the 24 rotations once on an odd and once on an even box
         for key, trs in sorted(reps.items()):
             yield gen_rot24(rng, q=rng.choice(trs), shape=rng.choice([[5, 5, 5], [7, 7, 7], [9, 9, 9], [5, 7, 9]]))
-            yield gen_rot24(rng, q=rng.choice(trs), shape=rng.choice([[6, 6, 6], [8, 8, 8], [6, 7, 8], [8, 5, 6]]))
+            yield gen_rot24(rng, q=rng.choice(trs), shape=rng.choice([[6, 6, 6], [8, 8, 8], [6, 7, 8], [8, 5, 6], [8, 12, 10], [12, 12, 16]]))
     if tier in ("quick", "thorough"):
         for k in range(2, 13):
             yield gen_symblob(rng, n=k)
         for k in (1, 2, 4):
             yield gen_symexact(rng, n=k)
-    weights = [("rot24", 10), ("rotblob", 12), ("extract", 34), ("place", 26), ("symexact", 10), ("symblob", 8)]
+    weights = [("rot24", 10), ("rotblob", 10), ("extract", 32), ("place", 26), ("placeblob", 6), ("symexact", 9), ("symblob", 7)]
     kinds = [k for k, w in weights for _ in range(w)]
     for _ in range(n):
         k = rng.choice(kinds)
@@ -457,6 +661,8 @@ def generate(rng, tier, n):
             yield gen_extract(rng)
         elif k == "place":
             yield gen_place(rng, tier)
+        elif k == "placeblob":
+            yield gen_placeblob(rng)
         elif k == "symexact":
             yield gen_symexact(rng)
         else:
@@ -467,6 +673,8 @@ def shrink(case):
     k = case["kind"]
     if k == "place":
         parts = case["parts"]
+        if case.get("second") is not None:
+            yield {kk: vv for kk, vv in case.items() if kk != "second"}
         if len(parts) > 1:
             yield dict(case, parts=parts[:len(parts) // 2])
             yield dict(case, parts=parts[len(parts) // 2:])
@@ -479,9 +687,16 @@ def shrink(case):
         for i, p in enumerate(parts):
             if any(p["shift4"]):
                 yield dict(case, parts=parts[:i] + [dict(p, shift4=[0, 0, 0])] + parts[i + 1:])
-            if "q" in p and any(p["q"]):
+            if "q" in p and any(p["q"]) and not case.get("tlist"):
                 yield dict(case, parts=parts[:i] + [dict(p, q=[0, 0, 0])] + parts[i + 1:])
     elif k in ("rot24", "symexact", "extract"):
+        if k == "extract":
+            for opt in ("pad",):
+                if case.get(opt) is not None:
+                    yield {kk: vv for kk, vv in case.items() if kk != opt}
+            for opt in ("enforce", "crop_default"):
+                if case.get(opt):
+                    yield dict(case, **{opt: False})
         d = np.array(case["data"])
         nz = np.argwhere(d != 0)
         if len(nz) > 1:
@@ -523,49 +738,128 @@ def _motl(case):
     return cryomotl.Motl(df)
 
 
+def _res(a):
+    """G3: what the library returned, as returned: python type, dtype, shape and the values (ints stay ints, text stays text)"""
+    if not isinstance(a, np.ndarray):
+        return dict(type=type(a).__name__, dtype="", shape=[], vals=None)
+    return dict(type="ndarray", dtype=str(a.dtype), shape=list(a.shape), vals=a.tolist())
+
+
+def _same(a, b):
+    return bool(a.dtype == b.dtype and a.shape == b.shape and np.array_equal(a, b))
+
+
+def _gauss(shape, ctr, sig, amp=1.0):
+    g = _grid(shape).astype(float)
+    d2 = sum((g[i] - ctr[i]) ** 2 for i in range(3))
+    return amp * np.exp(-d2 / (2 * sig * sig))
+
+
+def _zxz(ang):
+    cs = [(math.cos(math.radians(x)), math.sin(math.radians(x))) for x in ang]
+    return _rz(*cs[2]) @ _rx(*cs[1]) @ _rz(*cs[0])
+
+
+def second_case(case):
+    """the case the second place_object call of a G2 run must be judged as: template(s) flipped along one axis, colours raised"""
+    sec = case["second"]
+    ax = sec["flip"]
+    fl = lambda t: np.flip(np.array(t), axis=ax).tolist()
+    parts = []
+    for p in case["parts"]:
+        q = dict(p, col=[p["col"][0] + sec["coladd"] * p["col"][1], p["col"][1]])
+        if "tdata" in p:
+            q["tdata"] = fl(p["tdata"])
+        parts.append(q)
+    c2 = {k: v for k, v in case.items() if k != "second"}
+    c2.update(tdata=fl(case["tdata"]), parts=parts)
+    return c2
+
+
 def run_impl(case):
     from cryocat import cryomap
     from scipy.spatial.transform import Rotation as srot
     k = case["kind"]
     if k == "rot24":
         vol = np.array(case["data"], dtype=float)
+        vol0 = vol.copy()
         ang = [90.0 * q for q in case["q"]]
         out = cryomap.rotate(vol, rotation_angles=ang)
         R = srot.from_euler("zxz", ang, degrees=True)
-        out2 = cryomap.rotate(vol, rotation=R, transpose_rotation=True)
+        obs = dict(out=_res(out))
+        if case.get("plain"):
+            obs["out_plain"] = _res(cryomap.rotate(vol, rotation=R))                       # transpose_rotation omitted: default
+        else:
+            obs["out_rotobj"] = _res(cryomap.rotate(vol, rotation=R, transpose_rotation=True))
         back = cryomap.rotate(out, rotation_angles=[-ang[2], -ang[1], -ang[0]])
-        return dict(out=out.tolist(), out_rotobj=out2.tolist(), back=back.tolist(), scipyR=np.rint(R.as_matrix()).astype(int).flatten().tolist(),
-                    scipyR_dev=float(np.abs(R.as_matrix() - np.rint(R.as_matrix())).max()))
+        obs.update(back=_res(back), scipyR=np.rint(R.as_matrix()).astype(int).flatten().tolist(),
+                   scipyR_dev=float(np.abs(R.as_matrix() - np.rint(R.as_matrix())).max()), inputs_unchanged=_same(vol, vol0))
+        return obs
     if k == "rotblob":
         N = case["N"]
         vol = _blob(N, case["blobs"])
+        vol0 = vol.copy()
         ang = case["angles"]
         out = cryomap.rotate(vol, rotation_angles=ang)
         back = cryomap.rotate(out, rotation_angles=[-ang[2], -ang[1], -ang[0]])
         R = srot.from_euler("zxz", ang, degrees=True).as_matrix()
-        return dict(out=out.tolist(), inv_err=float(np.abs(back - vol).max() / np.abs(vol).max()), scipyR=R.flatten().tolist(),
+        return dict(out=out.tolist(), dtype=str(out.dtype), inv_err=float(np.abs(back - vol).max() / np.abs(vol).max()), scipyR=R.flatten().tolist(),
+                    inputs_unchanged=_same(vol, vol0),
                     face_mass=float(max(np.abs(out[0]).max(), np.abs(out[-1]).max(), np.abs(out[:, 0]).max(), np.abs(out[:, -1]).max(),
                                         np.abs(out[:, :, 0]).max(), np.abs(out[:, :, -1]).max()) / np.abs(vol).max()))
     if k == "extract":
-        vol = np.array(case["data"], dtype=float)
+        vol = np.array(case["data"]).astype(case.get("dtype", "float64"))
+        vol0 = vol.copy()
         coord = np.array(case["num"], dtype=float) / case["den"]
-        out = cryomap.extract_subvolume(vol, coord, list(case["sub"]))
-        obs = dict(out=out.tolist(), shape=list(out.shape))
+        coord0 = coord.copy()
+        sub = list(case["sub"])
+        # G2: the same volume, coordinate array and shape list serve every call of this case
+        obs = dict(out=_res(cryomap.extract_subvolume(vol, coord, sub)))
+        unchanged = _same(vol, vol0) and _same(coord, coord0) and sub == list(case["sub"])
+        if case.get("enforce"):
+            obs["enforce"] = _res(cryomap.extract_subvolume(vol, coord, sub, enforce_shape=True))
+        obs["again"] = _res(cryomap.extract_subvolume(vol, coord, sub))
         if case["den"] == 1:
-            cr = cryomap.crop(vol, list(case["sub"]), crop_coord=[int(v) for v in case["num"]])
-            obs["crop"] = cr.tolist()
-            obs["crop_shape"] = list(cr.shape)
+            obs["crop"] = _res(cryomap.crop(vol, sub, crop_coord=[int(v) for v in case["num"]]))
+        if case.get("crop_default"):
+            obs["crop_default"] = _res(cryomap.crop(vol, sub))
+        if case.get("pad") is not None:
+            pd_ = case["pad"]
+            ns = tuple(pd_["nsize"])
+            obs["pad"] = _res(cryomap.pad(vol, ns) if pd_["fill"] is None else cryomap.pad(vol, ns, fill_value=pd_["fill"][0] / pd_["fill"][1]))
+        obs["inputs_unchanged"] = bool(unchanged and _same(vol, vol0) and _same(coord, coord0) and sub == list(case["sub"]))
         return obs
     if k == "place":
-        tmpl = np.array(case["tdata"], dtype=float) / case["tden"]
+        mk = lambda t: np.array(t, dtype=float) / case["tden"]
+        tmpl = [mk(p["tdata"]) for p in case["parts"]] if case.get("tlist") else mk(case["tdata"])
+        snap = lambda: [t.copy() for t in tmpl] if isinstance(tmpl, list) else tmpl.copy()
+        eq = lambda a, b: all(_same(x, y) for x, y in zip(a, b)) if isinstance(a, list) else _same(a, b)
+        tmpl0 = snap()
         motl = _motl(case)
-        kw = dict(feature_to_color=case["feature"])
+        df0 = motl.df.copy(deep=True)
+        kw = {}
+        if case.get("kw_feature", True):
+            kw["feature_to_color"] = case["feature"]
+        cont = None
         if case.get("cinit") is not None:
-            kw["volume"] = np.array(case["cinit"], dtype=float)
+            cont = np.array(case["cinit"], dtype=float)
+            kw["volume"] = cont
         else:
             kw["volume_shape"] = tuple(case["cshape"])
-        out = cryomap.place_object(tmpl.copy(), motl, **kw)
-        obs = dict(out=out.tolist())
+        cont0 = None if cont is None else cont.copy()
+        out = cryomap.place_object(tmpl, motl, **kw)
+        obs = dict(out=_res(out))
+        unchanged = eq(tmpl, tmpl0) and motl.df.equals(df0) and list(motl.df.index) == list(df0.index) and (cont is None or _same(cont, cont0))
+        if case.get("second") is not None:
+            sec = case["second"]
+            for t in (tmpl if isinstance(tmpl, list) else [tmpl]):       # legitimate in-place edits of caller-owned inputs
+                t[...] = np.flip(t, axis=sec["flip"]).copy()
+            motl.df[case["feature"]] = motl.df[case["feature"]] + float(sec["coladd"])
+            tmpl1, df1 = snap(), motl.df.copy(deep=True)
+            out2 = cryomap.place_object(tmpl, motl, **kw)
+            obs["out2"] = _res(out2)
+            unchanged = unchanged and eq(tmpl, tmpl1) and motl.df.equals(df1) and (cont is None or _same(cont, cont0))
+        obs["inputs_unchanged"] = bool(unchanged)
         if any("angles" in p for p in case["parts"]):
             masks, margin = [], 1.0
             for p in case["parts"]:
@@ -576,25 +870,62 @@ def run_impl(case):
             obs["masks"] = masks
             obs["margin"] = margin
         return obs
+    if k == "placeblob":
+        import pandas as pd
+        from cryocat import cryomotl
+        T = case["tshape"]
+        c = [t // 2 for t in T]
+        tmpl = _gauss(T, [c[i] + case["v"][i] for i in range(3)], case["sigma"])
+        tmpl0 = tmpl.copy()
+        df = pd.DataFrame({col: np.zeros(1) for col in COLUMNS})
+        df.loc[0, ["x", "y", "z"]] = [p / 4.0 for p in case["pos4"]]
+        df.loc[0, ["phi", "theta", "psi"]] = case["angles"]
+        df.loc[0, ["subtomo_id", "tomo_id"]] = [1, 1]
+        df.loc[0, "object_id"] = float(case["col"])
+        out = cryomap.place_object(tmpl, cryomotl.Motl(df), volume_shape=tuple(case["cshape"]))       # feature_to_color omitted: default
+        on = np.argwhere(out == float(case["col"]))
+        other = int(((out != 0) & (out != float(case["col"]))).sum())
+        return dict(dtype=str(out.dtype), shape=list(out.shape), on=on.tolist(), other=other, inputs_unchanged=_same(tmpl, tmpl0))
     if k == "symexact":
         vol = np.array(case["data"], dtype=float)
+        vol0 = vol.copy()
         n = case["n"]
         out = cryomap.symmetrize_volume(vol, n if case["form"] == "int" else f"C{n}")
         rot1 = cryomap.rotate(out, rotation_angles=[0, 0, 360.0 / n])
-        return dict(out=out.tolist(), rot1=rot1.tolist())
+        return dict(out=_res(out), rot1=rot1.tolist(), inputs_unchanged=_same(vol, vol0))
     if k == "symblob":
         N, n = case["N"], case["n"]
         vol = _blob(N, case["blobs"])
+        vol0 = vol.copy()
         out = cryomap.symmetrize_volume(vol, n if case["form"] == "int" else f"C{n}")
+        unchanged = _same(vol, vol0)
         rot1 = cryomap.rotate(out, rotation_angles=[0, 0, 360.0 / n])
         copies = [cryomap.rotate(vol, rotation_angles=[0, 0, j * 360.0 / n]) for j in range(1, n + 1)]
         mean = sum(copies) / n
         peak = float(np.abs(vol).max())
         sub = lambda a: [[[f2b(x) for x in r] for r in pl] for pl in a[1:-1:3, 1:-1:3, 1:-1:3].tolist()]   # symmetrizeF is voxel-wise: a sub-lattice suffices
-        return dict(out=sub(out), copies=[sub(c) for c in copies],
+        # invariance, independently of rotate(): trilinear resampling of the symmetrised map on the grid turned by 360/n about z
+        return dict(out=sub(out), copies=[sub(c) for c in copies], dtype=str(out.dtype), shape=list(out.shape), inputs_unchanged=unchanged,
                     inv_err=float(np.abs(rot1 - out).max() / peak), total_err=float(abs(out.sum() - vol.sum()) / abs(vol.sum())),
                     mean_err=float(np.abs(out - mean)[1:-1, 1:-1, 1:-1].max() / peak), asym=float(np.abs(copies[0] - vol).max() / peak))
     raise ValueError("unknown kind")
+
+
+def _place_req(case, obs=None):
+    parts = []
+    for i, p in enumerate(case["parts"]):
+        d = dict(num=[4 * x + s for x, s in zip(p["pos"], p["shift4"])], den=4, col=p["col"])
+        if obs is not None and "masks" in obs:
+            d["mask"] = obs["masks"][i]
+        else:
+            d["q"] = p["q"]
+            if case.get("tlist"):
+                d["tdata"] = p["tdata"]
+        parts.append(d)
+    r = dict(op="place", cshape=case["cshape"], tdata=case["tdata"], tden=case["tden"], parts=parts)
+    if case.get("cinit") is not None:
+        r["cdata"] = case["cinit"]
+    return r
 
 
 def requests(case, obs):
@@ -611,22 +942,27 @@ def requests(case, obs):
         return [dict(op="zxzapply", cs=cs, v=[f2b(x) for x in b[2]]) for b in case["blobs"]]
     if k == "extract":
         reqs = [dict(op="extract", data=case["data"], num=case["num"], den=case["den"], sub=case["sub"])]
-        if case["den"] == 1:
+        if "crop" in obs:
             reqs.append(dict(op="crop", data=case["data"], num=case["num"], den=1, sub=case["sub"]))
+        if "crop_default" in obs:
+            reqs.append(dict(op="crop", data=case["data"], sub=case["sub"]))
+        if "pad" in obs:
+            r = dict(op="pad", data=case["data"], nsize=case["pad"]["nsize"])
+            if case["pad"]["fill"] is not None:
+                r["fill"] = case["pad"]["fill"]
+            reqs.append(r)
         return reqs
     if k == "place":
-        parts = []
-        for i, p in enumerate(case["parts"]):
-            d = dict(num=[4 * x + s for x, s in zip(p["pos"], p["shift4"])], den=4, col=p["col"])
-            if "masks" in obs:
-                d["mask"] = obs["masks"][i]
-            else:
-                d["q"] = p["q"]
-            parts.append(d)
-        r = dict(op="place", cshape=case["cshape"], tdata=case["tdata"], tden=case["tden"], parts=parts)
-        if case.get("cinit") is not None:
-            r["cdata"] = case["cinit"]
-        return [r]
+        reqs = [_place_req(case, obs)]
+        if "out2" in obs:
+            reqs.append(_place_req(second_case(case)))
+        return reqs
+    if k == "placeblob":
+        cs = []
+        for a in case["angles"]:
+            r = math.radians(a)
+            cs += [f2b(math.cos(r)), f2b(math.sin(r))]
+        return [dict(op="zxzapply", cs=cs, v=[f2b(x) for x in case["v"]])]
     if k == "symexact":
         return [dict(op="symexact", data=case["data"], n=case["n"])]
     if k == "symblob":
@@ -645,14 +981,29 @@ def _worst(mask, a, b):
     return float(d[i]), [int(x) for x in i]
 
 
+def _num(res, what, out, want_shape=None):
+    """G3: a result must be an ndarray of a numeric dtype (and of the expected shape); returns the float view or None"""
+    if res["type"] != "ndarray":
+        out.append(_F("spec", "result-type", f"{what}: returned a {res['type']}, not an array"))
+        return None
+    if not (res["dtype"].startswith(("float", "int", "uint"))):
+        out.append(_F("spec", "result-dtype", f"{what}: returned dtype {res['dtype']} (a map must come back numeric, not text/object/bool)"))
+        return None
+    if want_shape is not None and list(res["shape"]) != list(want_shape):
+        out.append(_F("spec", "result-shape", f"{what}: shape {res['shape']}, expected {list(want_shape)}"))
+        return None
+    return np.array(res["vals"], dtype=float).reshape(res["shape"])
+
+
 def _paint(case):
-    """independent evaluation of the placement clause (quarter-turn poses, any template size): painter's algorithm"""
+    """independent evaluation of the placement clause (quarter-turn poses, any template size, one template or a list):
+    painter's algorithm"""
     C = case["cshape"]
     out = np.zeros(C) if case.get("cinit") is None else np.array(case["cinit"], dtype=float)
-    t = np.array(case["tdata"]) / case["tden"]
-    s = t.shape
-    c = [n // 2 for n in s]
     for p in case["parts"]:
+        t = np.array(p["tdata"] if case.get("tlist") else case["tdata"]) / case["tden"]
+        s = t.shape
+        c = [n // 2 for n in s]
         R = cube(*p["q"])
         pos = [Fraction(4 * x + sh, 4) - 1 for x, sh in zip(p["pos"], p["shift4"])]
         start = [math.floor(pos[i] - Fraction(s[i], 2)) for i in range(3)]
@@ -669,16 +1020,47 @@ def _paint(case):
     return out
 
 
+def _window(vol, start, s, fill):
+    V = vol.shape
+    exp = np.full(s, fill, dtype=float)
+    for t in itertools.product(*[range(n) for n in s]):
+        p = [start[i] + t[i] for i in range(3)]
+        if all(0 <= p[i] < V[i] for i in range(3)):
+            exp[t] = vol[tuple(p)]
+    return exp
+
+
+def _judge_crop(out, vol, start, s, res, resp, tag, how):
+    V = vol.shape
+    lo = [min(max(0, start[i]), V[i]) for i in range(3)]
+    hi = [max(min(V[i], start[i] + s[i]), 0) for i in range(3)]
+    exps = [max(0, hi[i] - lo[i]) for i in range(3)]
+    got = _num(res, tag, out)
+    if got is None:
+        return
+    if list(got.shape) != exps:
+        out.append(_F("spec", "crop-shape", f"{how} returned shape {list(got.shape)}, the window clipped to the volume is {exps}"))
+    elif 0 not in exps and not np.array_equal(got, vol[lo[0]:hi[0], lo[1]:hi[1], lo[2]:hi[2]]):
+        out.append(_F("spec", "crop-content", f"{how} is not the clipped window [{lo}:{hi}]"))
+    if resp["shape"] != list(got.shape) or (0 not in exps and 0 not in got.shape and np.abs(np.array(resp["data"], dtype=float) - got).max() > TOL):
+        out.append(_F("corr", "crop-vs-model", f"{how}: model shape {resp['shape']} impl {list(got.shape)}"))
+
+
 def judge(case, obs, resps):
     k = case["kind"]
     out = []
     if "error" in obs:
+        if not obs.get("where"):
+            # G4: no frame of the traceback lies inside cryocat: the harness or a third-party library failed, not the code under test
+            return [_F("corr", "harness-or-library-raised", f"{k}: {obs['error']} (no cryocat frame in the traceback)")]
         return [_F("spec", "raises", f"{k}: {obs['error']} @{obs.get('where', '')}")]
     for r in resps:
         if "error" in r:
             out.append(_F("corr", "model-rejects", f"{k}: {r}"))
     if out:
         return out
+    if obs.get("inputs_unchanged") is False:
+        out.append(_F("spec", "caller-input-modified", f"{k}: an array / table / list passed as argument was edited in place by the call"))
     if k == "rot24":
         shape = case["shape"]
         vol = np.array(case["data"], dtype=float)
@@ -687,7 +1069,9 @@ def judge(case, obs, resps):
             out.append(_F("corr", "cube-matrix", f"Lean cubeZxz{case['q']} = {resps[0]['R']} but Rz(psi)Rx(theta)Rz(phi) = {R.flatten().tolist()}"))
         if obs["scipyR"] != R.flatten().tolist() or obs["scipyR_dev"] > 1e-12:
             out.append(_F("corr", "scipy-zxz-convention", f"scipy from_euler('zxz',{case['q']}*90) = {obs['scipyR']}"))
-        got = np.array(obs["out"])
+        got = _num(obs["out"], "rotate", out, shape)
+        if got is None:
+            return out
         src = _src(R.T, shape)
         o_int = _interior(_grid(shape), shape)
         m_val = o_int & _interior(src, shape)
@@ -697,14 +1081,30 @@ def judge(case, obs, resps):
         if d > TOL:
             out.append(_F("spec", "rotate-active-permutation",
                           f"q={case['q']} shape={shape}: out{at}={got[tuple(at)]!r} but in[c+R^-1(o-c)]={exp[tuple(at)]!r} (density at offset v must move to R v)"))
-        d2, at2 = _worst(m_val | m_zero, np.array(obs["out_rotobj"]), exp)
-        if d2 > TOL:
-            out.append(_F("spec", "rotate-rotation-object-path", f"rotate(rotation=R, transpose_rotation=True) differs at {at2} by {d2}"))
+        if "out_rotobj" in obs:
+            g2 = _num(obs["out_rotobj"], "rotate(rotation=R, transpose_rotation=True)", out, shape)
+            if g2 is not None:
+                d2, at2 = _worst(m_val | m_zero, g2, exp)
+                if d2 > TOL:
+                    out.append(_F("spec", "rotate-rotation-object-path", f"rotate(rotation=R, transpose_rotation=True) differs at {at2} by {d2}"))
+        if "out_plain" in obs:      # documented default transpose_rotation=False: the inverse orientation (not a clause of the statement: corr)
+            g3 = _num(obs["out_plain"], "rotate(rotation=R)", out, shape)
+            if g3 is not None:
+                srcp = _src(R, shape)
+                mp = o_int & (_interior(srcp, shape) | _outside(srcp, shape))
+                expp = np.where(_interior(srcp, shape), _take(vol, srcp, shape), 0.0)
+                d5, at5 = _worst(mp, g3, expp)
+                d6, at6 = _worst(mp, g3, np.array(resps[0]["plain"], dtype=float))
+                if d5 > TOL or d6 > TOL:
+                    out.append(_F("corr", "rotate-default-transpose", f"rotate(rotation=R) with the default transpose_rotation is not the map rotated by R^-1: "
+                                  f"voxel {at5 if d5 > TOL else at6} off by {max(d5, d6)}"))
         fwd = _src(R, shape)     # where voxel u of the input lands: c + R (u - c)
         m_back = o_int & _interior(fwd, shape)
-        d3, at3 = _worst(m_back, np.array(obs["back"]), vol)
-        if d3 > TOL:
-            out.append(_F("spec", "rotate-inverse-restores", f"rotating by the inverse does not restore voxel {at3}: off by {d3}"))
+        gb = _num(obs["back"], "rotate (inverse)", out, shape)
+        if gb is not None:
+            d3, at3 = _worst(m_back, gb, vol)
+            if d3 > TOL:
+                out.append(_F("spec", "rotate-inverse-restores", f"rotating by the inverse does not restore voxel {at3}: off by {d3}"))
         model = np.array(resps[0]["data"], dtype=float)
         d4, at4 = _worst(m_val | m_zero, got, model)
         if d4 > TOL:
@@ -713,6 +1113,8 @@ def judge(case, obs, resps):
     if k == "rotblob":
         N = case["N"]
         c = N // 2
+        if not obs["dtype"].startswith("float"):
+            out.append(_F("spec", "result-dtype", f"rotate returned dtype {obs['dtype']}"))
         centres, devR = [], 0.0
         Rs = np.array(obs["scipyR"]).reshape(3, 3)
         for b, r in zip(case["blobs"], resps):
@@ -724,11 +1126,16 @@ def judge(case, obs, resps):
                 out.append(_F("corr", "srcCoord-inverse", f"srcCoord R^T (R v) = {back} != v = {b[2]}"))
         if devR > 1e-12:
             out.append(_F("corr", "scipy-zxz-convention", f"scipy matrix and Lean zxz differ by {devR} on the blob offsets"))
-        exp = _blob(N, case["blobs"], centres)
+        # the statement's clause, evaluated independently of implementation AND model: Gaussians re-centred at c + Rz(psi)Rx(theta)Rz(phi) v
+        Rn = _zxz(case["angles"])
+        exp = _blob(N, case["blobs"], [[c + x for x in Rn @ np.array(b[2])] for b in case["blobs"]])
         got = np.array(obs["out"])
         err = float(np.abs(got - exp).max() / np.abs(exp).max())
         if err > TOL_BLOB:
             out.append(_F("spec", "rotate-active-blob", f"angles={case['angles']}: rotated map differs from the Gaussians re-centred at c+R*v by {err:.3f} of the peak"))
+        errm = float(np.abs(exp - _blob(N, case["blobs"], centres)).max() / np.abs(exp).max())
+        if errm > 1e-9:
+            out.append(_F("corr", "zxz-model-vs-numpy", f"Lean zxz at Float and numpy Rz Rx Rz place the blobs {errm:.2e} apart"))
         if obs["inv_err"] > TOL_BLOB:
             out.append(_F("spec", "rotate-inverse-blob", f"rotate(R^-1) after rotate(R) differs from the map by {obs['inv_err']:.3f} of the peak"))
         return out
@@ -737,56 +1144,125 @@ def judge(case, obs, resps):
         V, s = vol.shape, case["sub"]
         start = _floor_start(case["num"], case["den"], s)
         mean = float(Fraction(int(np.array(case["data"]).sum()), vol.size))
-        got = np.array(obs["out"], dtype=float)
-        if list(got.shape) != list(s):
-            return [_F("spec", "window-shape", f"requested {s}, got {list(got.shape)}")]
-        exp = np.full(s, mean)
-        for t in itertools.product(*[range(n) for n in s]):
-            p = [start[i] + t[i] for i in range(3)]
-            if all(0 <= p[i] < V[i] for i in range(3)):
-                exp[t] = vol[tuple(p)]
-        d, at = _worst(np.ones(s, bool), got, exp)
-        if d > TOL:
-            out.append(_F("spec", "window-content", f"coord={case['num']}/{case['den']} sub={s} vol={list(V)}: out{at}={got[tuple(at)]!r}, window says {exp[tuple(at)]!r}"))
+        exp = _window(vol, start, s, mean)
+        how = f"coord={case['num']}/{case['den']} sub={s} vol={list(V)} dtype={case.get('dtype', 'float64')}"
+        got = None
+        for key, label in (("out", "window-content"), ("again", "window-content-second-call")):
+            g = _num(obs[key], f"extract_subvolume ({key})", out)
+            if g is None:
+                continue
+            if list(g.shape) != list(s):
+                out.append(_F("spec", "window-shape", f"requested {s}, got {list(g.shape)}"))
+                continue
+            d, at = _worst(np.ones(s, bool), g, exp)
+            if d > TOL:
+                out.append(_F("spec", label, f"{how}: out{at}={g[tuple(at)]!r}, window says {exp[tuple(at)]!r}"))
+            if key == "out":
+                got = g
+        if got is None:
+            return out
         if resps[0]["start"] != start:
             out.append(_F("corr", "window-start", f"model start {resps[0]['start']} vs floor(coord - s/2) = {start}"))
         model = _ratvol(resps[0]["data"])
         d2, at2 = _worst(np.ones(s, bool), got, model)
         if d2 > TOL:
             out.append(_F("corr", "extract-vs-model", f"voxel {at2}: impl {got[tuple(at2)]!r} model {model[tuple(at2)]!r}"))
+        if "enforce" in obs:       # enforce_shape=True is an option the statement does not speak about: documented behaviour, corr
+            ge = _num(obs["enforce"], "extract_subvolume(enforce_shape=True)", out)
+            if ge is not None:
+                g = _grid(V)
+                inwin = np.all([(g[i] - start[i] >= 0) & (g[i] - start[i] < s[i]) for i in range(3)], axis=0)
+                expe = np.where(inwin, vol, mean)
+                if list(ge.shape) != list(V) or np.abs(ge - expe).max() > TOL or np.abs(ge - _ratvol(resps[0]["enforce"])).max() > TOL:
+                    out.append(_F("corr", "extract-enforce-shape", f"{how}: enforce_shape=True is not the volume with everything outside the window set to the mean"))
+        ri = 1
         if "crop" in obs:
-            cm = resps[1]
-            lo = [min(max(0, start[i]), V[i]) for i in range(3)]
-            hi = [max(min(V[i], start[i] + s[i]), 0) for i in range(3)]
-            exps = [max(0, hi[i] - lo[i]) for i in range(3)]
-            if obs["crop_shape"] != exps:
-                out.append(_F("spec", "crop-shape", f"crop returned shape {obs['crop_shape']}, the window clipped to the volume is {exps}"))
-            elif 0 not in exps and not np.array_equal(np.array(obs["crop"]), vol[lo[0]:hi[0], lo[1]:hi[1], lo[2]:hi[2]]):
-                out.append(_F("spec", "crop-content", "crop is not the clipped window"))
-            if cm["shape"] != obs["crop_shape"] or (0 not in exps and np.abs(np.array(cm["data"], dtype=float) - np.array(obs["crop"])).max() > TOL):
-                out.append(_F("corr", "crop-vs-model", f"model shape {cm['shape']} impl {obs['crop_shape']}"))
+            _judge_crop(out, vol, start, s, obs["crop"], resps[ri], "crop", f"crop(crop_coord={case['num']}) {how}")
+            ri += 1
+        if "crop_default" in obs:
+            startc = [math.floor(Fraction(V[i] // 2) - Fraction(s[i], 2)) for i in range(3)]
+            _judge_crop(out, vol, startc, s, obs["crop_default"], resps[ri], "crop (default centre)", f"crop() about the box centre {[v // 2 for v in V]} {how}")
+            ri += 1
+        if "pad" in obs:           # pad is not a clause of the statement: documented behaviour, corr
+            gp = _num(obs["pad"], "pad", out)
+            if gp is not None:
+                ns, fl = case["pad"]["nsize"], case["pad"]["fill"]
+                expp = np.full(ns, mean if fl is None else fl[0] / fl[1], dtype=float)
+                st = [math.ceil(Fraction(ns[i] - V[i], 2)) for i in range(3)]
+                expp[st[0]:st[0] + V[0], st[1]:st[1] + V[1], st[2]:st[2] + V[2]] = vol
+                if list(gp.shape) != list(ns) or np.abs(gp - expp).max() > TOL or np.abs(gp - _ratvol(resps[ri]["data"])).max() > TOL:
+                    out.append(_F("corr", "pad", f"pad({list(V)} -> {ns}, fill={fl}) is not the volume centred at ceil((new-old)/2) in a block of the fill value"))
         return out
     if k == "place":
-        got = np.array(obs["out"], dtype=float)
+        got = _num(obs["out"], "place_object", out)
+        if got is None:
+            return out
         if list(got.shape) != list(case["cshape"]):
-            return [_F("spec", "place-shape", f"container {case['cshape']} -> {list(got.shape)}")]
+            return out + [_F("spec", "place-shape", f"container {case['cshape']} -> {list(got.shape)}")]
         if "masks" not in obs:
             exp = _paint(case)
             d, at = _worst(np.ones(got.shape, bool), got, exp)
             if d > TOL:
                 out.append(_F("spec", "place-stamp", f"voxel {at}: placed map has {got[tuple(at)]!r}, stamping the rotated thresholded template at pos-1 with the field value gives {exp[tuple(at)]!r}"))
         elif obs["margin"] < 1e-6:
-            return []   # a rotated template value within rounding of the threshold: outcome depends on rounding (excluded)
+            return out   # a rotated template value within rounding of the threshold: outcome depends on rounding (excluded)
         model = _ratvol(resps[0]["data"])
         d2, at2 = _worst(np.ones(got.shape, bool), got, model)
         if d2 > TOL:
-            out.append(_F("corr" if "masks" not in obs else "spec", "place-vs-model" if "masks" not in obs else "place-stamp-given-masks",
+            # arbitrary poses: the stamp masks come from the implementation's own rotate(), so this is a consistency check (corr), never spec
+            out.append(_F("corr", "place-vs-model" if "masks" not in obs else "place-stamp-given-masks",
                           f"voxel {at2}: impl {got[tuple(at2)]!r} model {model[tuple(at2)]!r}"))
+        if "out2" in obs:
+            c2 = second_case(case)
+            g2 = _num(obs["out2"], "place_object (second call)", out, case["cshape"])
+            if g2 is not None:
+                exp2 = _paint(c2)
+                d3, at3 = _worst(np.ones(g2.shape, bool), g2, exp2)
+                if d3 > TOL:
+                    out.append(_F("spec", "place-stamp-second-call", f"second call on the same (edited) template and list: voxel {at3} has {g2[tuple(at3)]!r}, "
+                                  f"stamping gives {exp2[tuple(at3)]!r}"))
+                d4, at4 = _worst(np.ones(g2.shape, bool), g2, _ratvol(resps[1]["data"]))
+                if d4 > TOL:
+                    out.append(_F("corr", "place-vs-model-second-call", f"voxel {at4}"))
+        return out
+    if k == "placeblob":
+        if not obs["dtype"].startswith(("float", "int", "uint")) or obs["shape"] != list(case["cshape"]):
+            return out + [_F("spec", "result-dtype", f"place_object returned dtype {obs['dtype']} shape {obs['shape']}")]
+        T, C = case["tshape"], case["cshape"]
+        c = [t // 2 for t in T]
+        Rn = _zxz(case["angles"])
+        start = [math.floor(Fraction(case["pos4"][i], 4) - 1 - Fraction(T[i], 2)) for i in range(3)]
+        ctr = np.array(start) + np.array(c) + Rn @ np.array(case["v"])       # pos - 1 + R v up to the floor of the window start
+        ana = _gauss(C, ctr, case["sigma"])
+        onm = np.zeros(C, bool)
+        for p in obs["on"]:
+            onm[tuple(p)] = True
+        sure_on, sure_off = ana > 0.1 + BLOB_SHELL, ana < 0.1 - BLOB_SHELL
+        bad = (sure_on & ~onm) | (sure_off & onm)
+        if obs["other"] or bad.any():
+            at = [int(x) for x in np.argwhere(bad)[0]] if bad.any() else None
+            out.append(_F("spec", "place-blob-mask", f"angles={case['angles']} pos={[p / 4 for p in case['pos4']]} v={case['v']}: voxel {at} "
+                          f"{'is' if at and onm[tuple(at)] else 'is not'} stamped, the Gaussian centred at start+floor(s/2)+R v = {ctr.round(3).tolist()} "
+                          f"says otherwise ({int(bad.sum())} voxels differ outside the threshold shell, {obs['other']} voxels with another value)"))
+        if len(obs["on"]):
+            com = np.array(obs["on"], dtype=float).mean(axis=0)
+            ref = np.argwhere(ana > 0.1).astype(float).mean(axis=0)
+            dev = float(np.abs(com - ref).max())
+            if dev > 0.1 or float(np.abs(ref - ctr).max()) > 0.25:
+                out.append(_F("spec", "place-blob-centre", f"centre of mass of the stamped voxels {com.round(3).tolist()} vs pos-1+R v = {ctr.round(3).tolist()} "
+                              f"(same ball discretised there: {ref.round(3).tolist()}): off by {dev:.3f} voxel"))
+        else:
+            out.append(_F("spec", "place-blob-centre", "nothing stamped"))
+        w = np.array([b2f(x) for x in resps[0]["Rv"]])
+        if float(np.abs(w - Rn @ np.array(case["v"])).max()) > 1e-12:
+            out.append(_F("corr", "zxz-model-vs-numpy", f"Lean zxz v = {w.tolist()} vs numpy {(Rn @ np.array(case['v'])).tolist()}"))
         return out
     if k == "symexact":
         shape, n = case["shape"], case["n"]
         vol = np.array(case["data"], dtype=float)
-        got = np.array(obs["out"], dtype=float)
+        got = _num(obs["out"], "symmetrize_volume", out, shape)
+        if got is None:
+            return out
         g = _grid(shape)
         o_int = _interior(g, shape)
         srcs = [_src(cube(0, 0, (j * (4 // n)) % 4).T, shape) for j in range(1, n + 1)]
@@ -808,8 +1284,10 @@ def judge(case, obs, resps):
             out.append(_F("spec", "sym-invariant", f"n={n}: symmetrised map differs between voxel {at2} and its image under the 360/{n} rotation by {d2}"))
         d3, at3 = _worst(deep, np.array(obs["rot1"]), got)
         if d3 > TOL:
-            out.append(_F("spec", "sym-invariant-under-rotate", f"rotate(sym, 360/{n}) differs from sym at {at3} by {d3}"))
-        if case["zero_faces"] and (n <= 2 or shape[0] == shape[1]):
+            out.append(_F("corr", "sym-invariant-under-rotate", f"rotate(sym, 360/{n}) differs from sym at {at3} by {d3}"))
+        # total density under the hypotheses of the theorem symExact_total (n = 4: square section; zero faces cover the planes x = 0 / y = 0 of
+        # even sizes); faces must be zero for odd sizes too here, because the REAL rotate may lose a face voxel by rounding (recorded assumption)
+        if case["zero_faces"] and (n != 4 or shape[0] == shape[1]):
             if abs(got.sum() - vol.sum()) > 1e-8:
                 out.append(_F("spec", "sym-total-density", f"sum {got.sum()!r} vs {vol.sum()!r}"))
         model = _ratvol(resps[0]["data"])
@@ -819,13 +1297,28 @@ def judge(case, obs, resps):
         return out
     if k == "symblob":
         n = case["n"]
-        if obs["mean_err"] > TOL:
-            out.append(_F("spec", "sym-mean-of-rotated-copies", f"n={n}: differs from the mean of the copies rotated by k*360/{n} by {obs['mean_err']:.3g} of the peak"))
-        if obs["inv_err"] > TOL_BLOB:
-            out.append(_F("spec", "sym-invariant-under-rotate", f"n={n}: rotate(sym, 360/{n}) differs from sym by {obs['inv_err']:.3f} of the peak"))
+        if not obs["dtype"].startswith("float") or obs["shape"] != [case["N"]] * 3:
+            out.append(_F("spec", "result-dtype", f"symmetrize_volume returned dtype {obs['dtype']} shape {obs['shape']}"))
+        got = np.array([[[b2f(x) for x in r] for r in pl] for pl in obs["out"]])
+        # the statement's clause evaluated independently of rotate(), symmetrize_volume() and the model: the mean of the n copies of
+        # isotropic Gaussians is the mean of the Gaussians re-centred at c + Rz(k*360/n) v (numpy cos/sin)
+        N = case["N"]
+        c = N // 2
+        exp = np.zeros((N, N, N))
+        for j in range(1, n + 1):
+            Rk = _zxz([0.0, 0.0, j * 360.0 / n])
+            exp += _blob(N, case["blobs"], [[c + x for x in Rk @ np.array(b[2])] for b in case["blobs"]])
+        exp /= n
+        erra = float(np.abs(got - exp[1:-1:3, 1:-1:3, 1:-1:3]).max() / np.abs(exp).max())       # relative to the peak of the symmetrised map
+        if erra > TOL_BLOB:
+            out.append(_F("spec", "sym-mean-of-rotated-copies", f"n={n}: symmetrised map differs from the mean of the {n} Gaussians-rotated-by-k*360/{n} by {erra:.3f} of the peak"))
         if obs["total_err"] > TOL_BLOB:
             out.append(_F("spec", "sym-total-density", f"n={n}: total density changed by {obs['total_err']:.3f}"))
-        got = np.array([[[b2f(x) for x in r] for r in pl] for pl in obs["out"]])
+        # consistency with the library's own rotate(): the copies it produces, and rotating the result by 360/n (not independent: corr)
+        if obs["mean_err"] > TOL:
+            out.append(_F("corr", "sym-vs-mean-of-rotate-copies", f"n={n}: differs from the mean of rotate(vol, k*360/{n}) by {obs['mean_err']:.3g} of the peak"))
+        if obs["inv_err"] > TOL_BLOB:
+            out.append(_F("corr", "sym-invariant-under-rotate", f"n={n}: rotate(sym, 360/{n}) differs from sym by {obs['inv_err']:.3f} of the peak"))
         model = np.array([[[b2f(x) for x in r] for r in pl] for pl in resps[0]["data"]])
         dm = float(np.abs(got - model).max())
         if dm > TOL:
@@ -846,7 +1339,12 @@ def nontrivial(case, obs):
         return True
     if k == "place":
         init = np.zeros(case["cshape"]) if case.get("cinit") is None else np.array(case["cinit"], dtype=float)
-        return bool((np.array(obs["out"]) != init).any())
+        try:
+            return bool((np.array(obs["out"]["vals"], dtype=float) != init).any())
+        except Exception:
+            return False
+    if k == "placeblob":
+        return len(obs["on"]) > 20 and any(abs(a) % 90 > 1 for a in case["angles"])
     if k == "symexact":
         return case["n"] >= 2
     if k == "symblob":
@@ -860,16 +1358,23 @@ def stats(case, obs, resps):
     if "error" in obs:
         st["error"] = obs["error"][:60]
         return st
+    st["inputs_unchanged"] = str(obs.get("inputs_unchanged"))
+    if isinstance(obs.get("out"), dict):
+        st[k + ":result_dtype"] = obs["out"]["dtype"]
+    elif "dtype" in obs:
+        st[k + ":result_dtype"] = obs["dtype"]
     if k == "rot24":
         st["rot24:box"] = "x".join(map(str, case["shape"]))
         st["rot24:matrix"] = "".join("+0-"[0 if x > 0 else (1 if x == 0 else 2)] for x in cube(*case["q"]).flatten())
+        st["rot24:rotation-object call"] = "transpose_rotation omitted (default)" if case.get("plain") else "transpose_rotation=True"
+        st["rot24:centre floor-halves first/last differ"] = str(case["shape"][0] // 2 != case["shape"][2] // 2)
     elif k == "rotblob":
-        st["rotblob:inverse_error(of peak, tol 0.02)"] = "%.3f" % obs["inv_err"]
+        st["rotblob:inverse_error(of peak, tol 0.01)"] = "%.3f" % obs["inv_err"]
         try:
             c = case["N"] // 2
-            centres = [[c + b2f(x) for x in r["Rv"]] for r in resps]
-            exp = _blob(case["N"], case["blobs"], centres)
-            st["rotblob:active_error(of peak, tol 0.02)"] = "%.3f" % float(np.abs(np.array(obs["out"]) - exp).max() / np.abs(exp).max())
+            Rn = _zxz(case["angles"])
+            exp = _blob(case["N"], case["blobs"], [[c + x for x in Rn @ np.array(b[2])] for b in case["blobs"]])
+            st["rotblob:active_error(of peak, tol 0.01)"] = "%.3f" % float(np.abs(np.array(obs["out"]) - exp).max() / np.abs(exp).max())
         except Exception:
             pass
     elif k == "extract":
@@ -877,19 +1382,32 @@ def stats(case, obs, resps):
         start = _floor_start(case["num"], case["den"], s)
         ins = [max(0, min(V[i], start[i] + s[i]) - max(0, start[i])) for i in range(3)]
         st["extract:window"] = "inside" if ins == list(s) else ("outside" if 0 in ins else "partly")
-        st["extract:sub_parity"] = "even" if all(x % 2 == 0 for x in s) else "odd"
+        st["extract:sub_parity"] = "even" if all(x % 2 == 0 for x in s) else ("odd" if all(x % 2 == 1 for x in s) else "mixed")
+        st["extract:all axes odd >= 9"] = str(all(x % 2 == 1 and x >= 9 for x in s))
         st["extract:den"] = case["den"]
+        st["extract:volume_dtype"] = case.get("dtype", "float64")
+        st["extract:calls"] = "+".join(["extract", "again"] + [x for x in ("enforce", "crop", "crop_default", "pad") if x in obs])
+        if "pad" in obs:
+            st["extract:pad_fill"] = "default(mean)" if case["pad"]["fill"] is None else "given"
     elif k == "place":
         st["place:poses"] = len(case["parts"])
         st["place:index"] = case["index"]
-        st["place:feature"] = case["feature"]
+        st["place:feature"] = case["feature"] + ("" if case.get("kw_feature", True) else " (keyword omitted: default)")
         st["place:mode"] = "masks-from-rotate" if "masks" in obs else "cube-poses"
         st["place:container"] = "volume" if case.get("cinit") is not None else "volume_shape"
+        st["place:template"] = ("list " if case.get("tlist") else "single ") + ("even" if all(x % 2 == 0 for x in case["tshape"]) else ("odd" if all(x % 2 == 1 for x in case["tshape"]) else "mixed"))
+        st["place:template all axes odd >= 9"] = str(all(x % 2 == 1 and x >= 9 for x in case["tshape"]))
+        st["place:second call on edited inputs"] = str("out2" in obs)
+        if case.get("tlist"):
+            qs = [tuple(p["q"]) for p in case["parts"]]
+            st["place:list with repeated angles"] = str(len(set(qs)) < len(qs))
+    elif k == "placeblob":
+        st["placeblob:stamped_voxels"] = 10 * (len(obs["on"]) // 10)
     elif k in ("symexact", "symblob"):
         st[k + ":n"] = case["n"]
         if k == "symblob":
-            st["symblob:invariance_error(of peak, tol 0.02)"] = "%.3f" % obs["inv_err"]
-            st["symblob:total_density_error(tol 0.02)"] = "%.4f" % obs["total_err"]
+            st["symblob:invariance_error(of peak, tol 0.01)"] = "%.3f" % obs["inv_err"]
+            st["symblob:total_density_error(tol 0.01)"] = "%.4f" % obs["total_err"]
             st["symblob:mean_of_copies_error(tol 1e-9)"] = "%.0e" % obs["mean_err"]
         else:
             st["symexact:box"] = "x".join(map(str, case["shape"]))
@@ -898,6 +1416,8 @@ def stats(case, obs, resps):
 
 def sample_view(case):
     v = {kk: vv for kk, vv in case.items() if kk not in ("data", "tdata", "cinit")}
+    if "parts" in case:
+        case = dict(case, parts=[{a: b for a, b in p.items() if a != "tdata"} for p in case["parts"]])
     if "data" in case:
         v["data_shape"] = list(np.array(case["data"]).shape)
     if "parts" in case:
@@ -936,9 +1456,10 @@ LEVEL_TEXT = ("Lean 4 theorems about an index-level executable model of cryomap.
               "place_object / symmetrize_volume: active index law out[c+Rv]=in[c+v] for every orthogonal integer matrix and the 24 enumerated "
               "cube rotations (= all quarter-turn zxz triples), inverse rotation restores, the continuous coordinate law over any commutative "
               "ring, window and stamping specifications from the clipping formulas, painter's-algorithm characterisation of the placement "
-              "loop with the template centre landing on floor(pos-1)+Rv, and invariance + conservation for the mean over an exact cyclic action; "
+              "loop with the template centre (any template shape) landing on floor(pos-1-s/2)+floor(s/2)+Rv, invariance + conservation for the mean over "
+              "an exact cyclic action and its instantiation (total density over the voxel set of a box) for the executable n in {1,2,4} model; "
               "tied to the source by regenerated statement/expression anchors and an exact differential run against the real functions")
-LEVEL_NOTE = ("partial: spline interpolation accuracy (the 2 % clauses on smooth blobs, n not dividing 4) is validated against analytic Gaussians "
+LEVEL_NOTE = ("partial: spline interpolation accuracy (the 1 % clauses on smooth blobs, n not dividing 4) is validated against analytic Gaussians "
               "and rotate-back, not proved; trusted: Lean kernel, translator anchors, scipy affine_transform sample reproduction and zxz convention (probed)")
 TECHNIQUE = "Lean 4 proof (integer index algebra, omega on the clipping formulas, list induction, Finset re-indexing) + regenerated anchors + exact differential correspondence"
 DESIGN_REF = "DESIGN.md section 4, C14"
